@@ -5,7 +5,7 @@
 * element-level dominance, must-pass-through, and a forward must-facts analysis that records which
   atomic branch conditions hold on every path to a program point.
 """
-from .tree import key, roots, written_roots
+from .tree import key, roots, written_roots, written_lvalues
 
 NORETURN = {"stir::error", "exit", "abort", "std::terminate", "std::exit", "std::abort", "__assert_fail"}
 
@@ -77,6 +77,7 @@ class CFG:
                     B.aborts = True
                     B.cond = None
                     break
+        self._unhoist_branches()
         for B in self.blocks.values():
             for s in B.succs:
                 if s is not None and s in self.blocks:
@@ -88,6 +89,41 @@ class CFG:
                 self.pos.setdefault(n.i, (B.id, idx))
         self._dom = None
         self._pdom = None
+
+    def _unhoist_branches(self):
+        """flow-graph side of engine/tree._unhoist_conditions: for `const bool h = a || b; if (h)` clang evaluates the short-circuit
+        as a VALUE (blocks for a and b that meet in a join block, which then branches on h), so the graph has paths `a true -> join ->
+        else-branch` that cannot happen.  The join block only declares h; its predecessors are re-wired as for `if (a || b)`: a
+        short-circuit edge into the join has decided the value (true edge of ||: true, false edge of &&: false) and goes on to that
+        successor, the block of the last operand branches on it."""
+        for J in list(self.blocks.values()):
+            if J.cond is None or not J.cond.d.get("unhoisted") or len(J.succs) != 2 or J.succs[0] == J.succs[1]:
+                continue
+            E = J.cond.strip()
+            if not (E.k == "BinaryOperator" and E.op in ("&&", "||")):
+                continue
+            if any(n.is_call() or written_lvalues(n) for n in J.elems if n.k not in ("DeclStmt", "VarDecl")):
+                continue
+            preds = [P for P in self.blocks.values() if J.id in P.succs and P is not J]
+            plan = []
+            okay = bool(preds)
+            for P in preds:
+                if len(P.succs) == 2 and P.tk in ("BinaryOperator",) and P.succs[0] != P.succs[1]:
+                    plan.append((P, "short"))
+                elif len(P.succs) == 1 and P.elems and not P.aborts:
+                    plan.append((P, "last"))
+                else:
+                    okay = False
+            if not okay:
+                continue
+            for P, kind in plan:
+                if kind == "short":
+                    P.succs = [J.succs[i] if s == J.id else s for i, s in enumerate(P.succs)]
+                else:
+                    P.cond = P.elems[-1]
+                    P.term = J.term
+                    P.tk = J.tk
+                    P.succs = list(J.succs)
 
     # -- basic graph things
     def _reachable_from(self, start):
